@@ -192,7 +192,16 @@ class FaultEngine:
     def _restore_leader(self, topic, idx, old):
         p = self.world.cluster.partition(topic, idx)
         if p is not None and p.leader == -1:
-            self.world.cluster.move_leader(topic, idx, old)
+            cl = self.world.cluster
+            if not cl.brokers[old].up:
+                # the former leader died meanwhile: the election picks a live broker
+                up = [n for n in sorted(cl.brokers) if cl.brokers[n].up]
+                if not up:
+                    # nobody to elect right now
+                    self.world.later(0.2, self._restore_leader, topic, idx, old)
+                    return
+                old = up[int(self.world.rng.next("election", topic, idx) * len(up))]
+            cl.move_leader(topic, idx, old)
 
     def _unblackhole(self, br):
         br.blackhole = False
